@@ -25,8 +25,12 @@ def layout():
     )
 
 
+SETQ_FUNCS = ["contains", "len", "iter", "eq", "ne", "le", "lt", "ge", "gt", "isdisjoint", "or", "and", "sub", "xor"]
+LISTQ_FUNCS = ["getitem", "getslice", "index", "count", "contains", "iter", "reversed", "len"]
+
+
 def op_strategies(set_funcs=SET_FUNCS, list_funcs=LIST_FUNCS, symbols=False, load=True, new=True, edits=True,
-                  kinds=None):
+                  kinds=None, queries=False):
     idx = st.integers(0, 9)
     par = st.one_of(st.integers(0, 5), st.integers(0, 5), st.just(-1))
     child_kind = st.sampled_from(kinds or ["mod", "sec", "bi", "blk", "prx", "sym"])
@@ -59,12 +63,29 @@ def op_strategies(set_funcs=SET_FUNCS, list_funcs=LIST_FUNCS, symbols=False, loa
         ops["load"] = progs.op("load", i=st.integers(0, 4))
     if edits:
         ops["edit"] = progs.op("edit", k=st.sampled_from(["mod", "sec", "bi", "blk", "sym"]), c=idx, v=st.integers(0, 9))
+    if queries:
+        for f in SETQ_FUNCS:
+            ops["setq." + f] = progs.op(
+                "setq", k=set_kind, p=st.integers(0, 5), f=st.just(f), cs=cs, q=st.integers(0, 5),
+                refl=st.booleans(), **{"as": st.sampled_from(["set", "set", "frozenset", "wrapper"])}
+            )
+        for f in LISTQ_FUNCS:
+            fields = {"i": st.integers(0, 3), "f": st.just(f), "ms": cs, "a": small}
+            if f == "getslice":
+                fields.update(a=sl, b=sl, s=st.one_of(st.none(), st.none(), st.sampled_from([1, 2, -1, -2, 3])))
+            ops["listq." + f] = progs.op("listq", **fields)
     if symbols:
         what = st.sampled_from(["none", "blk", "blk", "prx", "int"])
         r = st.one_of(st.integers(0, 6), st.just(0))
         ops["rename"] = progs.op("rename", c=idx, v=st.integers(0, 3))
         ops["payload"] = progs.op("payload", c=idx, w=what, r=r, via=st.integers(0, 1))
         ops["newsym"] = progs.op("newsym", w=what, r=r, p=par, v=st.integers(0, 3))
+        # symbol edits are the subject of C10: weight them up
+        for extra in ("#2", "#3", "#4"):
+            ops["payload" + extra] = ops["payload"]
+            ops["rename" + extra] = ops["rename"]
+        ops["symparent"] = progs.op("setparent", k=st.just("sym"), c=idx, p=par)
+        ops["refparent"] = progs.op("setparent", k=st.sampled_from(["blk", "prx", "bi", "sec"]), c=idx, p=par)
     return ops
 
 
